@@ -70,6 +70,8 @@ pub fn check_c03(e: &Engine, w: &Workload, seed: u64, rep: &mut Report) -> Vec<&
     let mut reqs: HashMap<Vec<u8>, ReqState> = HashMap::new();
     // random packets: nonce -> (addr, last transmission, superseded)
     let mut randoms: HashMap<[u8; 12], (SocketAddr, Duration, bool)> = HashMap::new();
+    // nonce -> time of the latest WHOAREYOU echoing it that came from a foreign socket (timer restart)
+    let mut refreshed: HashMap<[u8; 12], Duration> = HashMap::new();
     // the input being processed: (trace index, from, peer, class)
     let mut cur: Option<(usize, SocketAddr, Option<usize>, InClass)> = None;
     let witness = |what: &str, idx: usize| json!({"scenario_seed": seed.to_string(), "what": what, "workload": w.json(), "trace": tail(trace, idx)});
@@ -107,6 +109,13 @@ pub fn check_c03(e: &Engine, w: &Workload, seed: u64, rep: &mut Report) -> Vec<&
                             ch.armed = t.at;
                         }
                     }
+                }
+                if let Some(n) = super::wire::foreign_whoareyou(class) {
+                    // the packet under that nonce is put back with a fresh timer
+                    if let Some(r) = randoms.get_mut(&n) {
+                        r.1 = t.at;
+                    }
+                    refreshed.insert(n, t.at);
                 }
                 if let InClass::WhoAreYou { request_nonce } = base(class) {
                     // a WHOAREYOU for the handshake packet of a live request must fail that request
@@ -151,7 +160,7 @@ pub fn check_c03(e: &Engine, w: &Workload, seed: u64, rep: &mut Report) -> Vec<&
                                     let by_random = randoms.get(request_nonce).map(|(a, last, superseded)| a == from && !superseded && t.at <= *last + timeout * (retries + 1) + slack).unwrap_or(false);
                                     // handler-internal requests (ENR requests) are not in `reqs`: accept a nonce of any
                                     // message the victim sent to that address recently that carried a request we do not own
-                                    let by_internal = trace[..idx].iter().rev().take_while(|u| u.at + timeout * (retries + 1) + slack >= t.at).any(|u| matches!(&u.ev, Ev::Sent { to: a, class: OutClass::Message { nonce: n, msg: Some(m), .. } | OutClass::Handshake { nonce: n, msg: Some(m), .. }, .. } if a == from && n == request_nonce && m.is_request() && !reqs.contains_key(m.id())));
+                                    let by_internal = trace[..idx].iter().rev().take_while(|u| u.at.max(refreshed.get(request_nonce).copied().unwrap_or_default()) + timeout * (retries + 1) + slack >= t.at).any(|u| matches!(&u.ev, Ev::Sent { to: a, class: OutClass::Message { nonce: n, msg: Some(m), .. } | OutClass::Handshake { nonce: n, msg: Some(m), .. }, .. } if a == from && n == request_nonce && m.is_request() && !reqs.contains_key(m.id())));
                                     if !(by_req || by_random || by_internal) {
                                         let sig = if matches!(c, InClass::Replay { same_source: false, .. }) { "C03:whoareyou-from-wrong-address-answered" } else { "C03:stale-whoareyou-answered" };
                                         rep.violation(sig, format!("the victim sent a handshake in reaction to a WHOAREYOU echoing {} which is not the nonce of a request in flight to {from}", hx(&request_nonce[..4])), witness("c", *i_idx));
